@@ -108,12 +108,10 @@ SortByKey(s, key) ==
 RECURSIVE UniqSeq(_, _)
 UniqSeq(s, seen) ==
   IF s = <<>> THEN <<>>
-  ELSE IF \E i \in 1..Len(seen) : Same(seen[i], Head(s)) THEN UniqSeq(Tail(s), seen)
+  ELSE IF \E i \in 1..Len(seen) : Eq3(seen[i], Head(s)) = "t" THEN UniqSeq(Tail(s), seen)
   ELSE <<Head(s)>> \o UniqSeq(Tail(s), Append(seen, Head(s)))
-\* uniq is decided when "distinct" is unambiguous: no two elements that are
-\* == but not identical (1 vs 1.0), and no element whose equality is open
-UniqDecided(s) == \A i, j \in 1..Len(s) :
-                     LET e == Eq3(s[i], s[j]) IN e # "u" /\ (e = "t" => Same(s[i], s[j]))
+\* "distinct" is by ==: of 1 and 1.0 the first occurrence stays.  Decided when no pair's equality is open.
+UniqDecided(s) == \A i, j \in 1..Len(s) : Eq3(s[i], s[j]) # "u"
 
 JoinItems(s, sep) ==
   LET kept == SelectSeq(s, LAMBDA e : ~IsNil(e))
